@@ -5,7 +5,7 @@
 import os, sys
 sys.path.insert(0, os.path.join(os.environ.get("AIOFTP_REPO", "/repo"), "src"))
 OBLIGATION = 'aioftp.server:Server.pasv#SEQ::Server.pasv/store:detach-data-connection:authorised'
-MODEL = {'bound_port!31': 2056, 'block_size!0': 1, 'u_cur_home!46': 'Unit("!0!")', 'logged_done!15': False, 'pool_size!1': 0, 'current_directory_present!16': True, 'pool_size!49': 0, 'current_directory_done!17': True, 'restart_offset!11': 0, 'pool_cnt0': 'K(Int, 43)', 'cwd!47': 'Empty(Seq(String))', 'int2str!32': '8', 'passive_server_present!20': True, 'int2str!33': '8', 'pool_rest!49': 'K(Int, 0)', 'passive_port!8': 0, 'pool_cnt!49': 'Store(K(Int, 0), 0, -1)', 'data_connection_present!22': True, 'passive_server_done!21': True, 'logged_present!14': True, 'data_connection_done!23': True}
+MODEL = {'pool_size!229': 0, 'bound_port!31': 514, 'logged_done!15': False, 'restart_offset!11': 0, 'u_cur_home!226': 'Unit("!1!")', 'pool_size!1': 0, 'cwd!227': 'Empty(Seq(String))', 'block_size!0': 1, 'user_done!13': False, 'pool_cnt0': 'K(Int, 43)', 'int2str!32': '2', 'passive_server_present!20': True, 'int2str!33': '2', 'data_connection_done!23': True, 'data_connection_present!22': True, 'passive_server_done!21': True, 'logged_present!14': True, 'pool_rest!229': 'K(Int, 0)', 'passive_port!8': 0, 'pool_cnt!229': 'Store(K(Int, 0), 0, -1)'}
 SOLVER_NOTE = ''
 
 print("obligation", OBLIGATION, "failed; no concrete failing input could be constructed automatically")
